@@ -46,6 +46,13 @@ type LibBody struct {
 	TimeoutS    int         `json:"timeout_s"`
 	SetAtMs     int         `json:"set_at_ms,omitempty"`
 	DefaultSet  bool        `json:"default_set,omitempty"`
+	// Replset: every "connection" is a client.ReplsetClient with two member connections (the leader
+	// twice, or the leader and the follower) instead of a plain client.Client
+	Replset bool `json:"replset,omitempty"`
+	// CutBytes: the k-th connection a client opens to a server is reset by the server's side after
+	// that many bytes of replies (0 = never): requests already executed lose their replies, the
+	// library reconnects on its own
+	CutBytes []int `json:"cut_bytes,omitempty"`
 }
 
 func genClientLib(prop string, seed uint64, tier string) *Scenario {
@@ -69,6 +76,77 @@ func genClientLib(prop string, seed uint64, tier string) *Scenario {
 		body.SetAtMs = 200 + r.Intn(1500)
 		body.DefaultSet = r.Intn(2) == 0
 	}
+	if body.Primitive == "prioritylock" && r.Intn(3) > 0 {
+		// queues that build up: longer holds, distinct priorities, enough patience
+		body.TimeoutS = 20 + r.Intn(20)
+		for g := range body.Workers {
+			wk := &body.Workers[g]
+			wk.Prio = uint8(r.Intn(8))
+			wk.StartMs = r.Intn(500)
+			wk.Rounds = 1 + r.Intn(2)
+			for i := range wk.HoldMs {
+				wk.HoldMs[i] = 150 + r.Intn(400)
+			}
+		}
+	}
+	if body.Primitive != "event" && r.Intn(3) == 0 {
+		body.Replset = true
+		body.NConns = 1 + r.Intn(2)
+		for g := range body.Workers {
+			body.Workers[g].Conn = r.Intn(body.NConns)
+		}
+		if body.TimeoutS < 3 {
+			body.TimeoutS = 3 + r.Intn(5)
+		}
+	}
+	if body.Primitive != "event" && r.Intn(3) == 0 {
+		n := 1 + r.Intn(4)
+		for i := 0; i < n; i++ {
+			body.CutBytes = append(body.CutBytes, []int{0, 64 * (1 + r.Intn(12)), 64*(1+r.Intn(12)) - 1 - r.Intn(62), 1 + r.Intn(1500)}[r.Intn(4)])
+		}
+		for g := range body.Workers {
+			// long enough for the library's reconnect (it retries after a few seconds)
+			if body.Workers[g].Rounds < 3 {
+				body.Workers[g].Rounds = 3
+				for len(body.Workers[g].HoldMs) < 3 {
+					body.Workers[g].HoldMs = append(body.Workers[g].HoldMs, r.Intn(60))
+					body.Workers[g].GapMs = append(body.Workers[g].GapMs, 500+r.Intn(3000))
+				}
+			}
+		}
+	}
+	if r.Intn(4) == 0 {
+		// reconnect profile: replica-set clients whose member connections lose replies and are reset
+		// again and again while re-entrant locks and counted primitives are being taken and released
+		body.Primitive = []string{"rlock", "rlock", "semaphore", "flow", "lock"}[r.Intn(5)]
+		body.Replset, body.NConns, body.TimeoutS = true, 1+r.Intn(2), 5+r.Intn(5)
+		body.SetAtMs, body.DefaultSet = 0, false
+		body.CutBytes = nil
+		for i, n := 0, 2+r.Intn(4); i < n; i++ {
+			body.CutBytes = append(body.CutBytes, 64*(1+r.Intn(8))-r.Intn(64))
+		}
+		if len(body.Workers) > 5 {
+			body.Workers = body.Workers[:2+r.Intn(4)]
+		}
+		for g := range body.Workers {
+			wk := &body.Workers[g]
+			wk.Conn, wk.Rounds = r.Intn(body.NConns), 4+r.Intn(5)
+			wk.HoldMs, wk.GapMs = nil, nil
+			for i := 0; i < wk.Rounds; i++ {
+				wk.HoldMs = append(wk.HoldMs, r.Intn(300))
+				wk.GapMs = append(wk.GapMs, 100+r.Intn(1500))
+			}
+		}
+	}
+	for g := range body.Workers {
+		wk := &body.Workers[g]
+		for len(wk.HoldMs) < wk.Rounds {
+			wk.HoldMs = append(wk.HoldMs, r.Intn(60))
+		}
+		for len(wk.GapMs) < wk.Rounds {
+			wk.GapMs = append(wk.GapMs, r.Intn(40))
+		}
+	}
 	raw, _ := json.Marshal(body)
 	k := genKnobs(r)
 	sc := &Scenario{Knobs: k, Sched: genSched(r, seed), Body: raw, MaxSimS: 6000}
@@ -76,6 +154,18 @@ func genClientLib(prop string, seed uint64, tier string) *Scenario {
 		sc.Net = NetCfg{LatencyUs: r.Intn(2000), JitterUs: r.Intn(2000), FragPermil: []int{0, 300, 900}[r.Intn(3)]}
 	}
 	return sc
+}
+
+// libConn is what the workers use: implemented by client.Client and client.ReplsetClient alike.
+type libConn interface {
+	Lock(lockKey [16]byte, timeout uint32, expried uint32) *client.Lock
+	RLock(lockKey [16]byte, timeout uint32, expried uint32) *client.RLock
+	Semaphore(semaphoreKey [16]byte, timeout uint32, expried uint32, count uint16) *client.Semaphore
+	MaxConcurrentFlow(flowKey [16]byte, count uint16, timeout uint32, expried uint32) *client.MaxConcurrentFlow
+	RWLock(lockKey [16]byte, timeout uint32, expried uint32) *client.RWLock
+	PriorityLock(lockKey [16]byte, priority uint8, timeout uint32, expried uint32) *client.PriorityLock
+	Event(eventKey [16]byte, timeout uint32, expried uint32, defaultSeted bool) *client.Event
+	Close() error
 }
 
 type libEvent struct {
@@ -127,8 +217,41 @@ func runClientLib(w *World) {
 			port = f.cfg.Port
 			w.probe("runs_via_follower")
 		}
-		conns := make([]*client.Client, body.NConns)
+		cutIdx := 0
+		opened := false
+		var firstConns []*snet.SimConn
+		if len(body.CutBytes) > 0 {
+			snet.N.OnDial = func(cl, sv *snet.SimConn) {
+				if cl.Node != 0 || (sv.Node != 1 && sv.Node != 100) {
+					return
+				}
+				if !opened {
+					firstConns = append(firstConns, sv) // cut once the opening handshakes are over
+					return
+				}
+				if cutIdx < len(body.CutBytes) {
+					if k := body.CutBytes[cutIdx]; k > 0 {
+						sv.CutAfter(int64(k))
+						w.fault("client_conn_cut_planned")
+					}
+					cutIdx++
+				}
+			}
+			defer func() { snet.N.OnDial = nil }()
+		}
+		conns := make([]libConn, body.NConns)
 		for i := range conns {
+			if body.Replset {
+				hosts := []string{"127.0.0.1:5001", fmt.Sprintf("127.0.0.1:%d", port)}
+				rc := client.NewReplsetClient(hosts)
+				if err := rc.Open(); err != nil {
+					w.harnessErr("replset client open: %v", err)
+					return
+				}
+				conns[i] = rc
+				w.probe("replset_clients")
+				continue
+			}
 			c := client.NewClient("127.0.0.1", port)
 			if err := c.Open(); err != nil {
 				w.harnessErr("client open: %v", err)
@@ -136,9 +259,25 @@ func runClientLib(w *World) {
 			}
 			conns[i] = c
 		}
+		opened = true
+		for _, sv := range firstConns {
+			if cutIdx < len(body.CutBytes) {
+				if k := body.CutBytes[cutIdx]; k > 0 {
+					sv.CutAfter(int64(k))
+					w.fault("client_conn_cut_planned")
+				}
+				cutIdx++
+			}
+		}
 		to, ex := uint32(body.TimeoutS), uint32(120)
 		n := uint16(body.N)
 		fin := 0
+		if body.Primitive == "event" && body.DefaultSet {
+			// an event that is set by default is cleared before any waiter starts
+			if _, err := conns[0].Event(key, to, ex, true).Clear(); err != nil {
+				w.logf("event clear: %v", err)
+			}
+		}
 		for g := range body.Workers {
 			g := g
 			wk := &body.Workers[g]
@@ -217,12 +356,6 @@ func runClientLib(w *World) {
 		}
 		if body.Primitive == "event" {
 			e := conns[0].Event(key, to, ex, body.DefaultSet)
-			if body.DefaultSet {
-				if _, err := e.Clear(); err != nil {
-					w.logf("event clear: %v", err)
-				}
-			}
-			// the waiters start after the event has been cleared (default-set mode) or exists unset
 			sleep(time.Duration(body.SetAtMs) * time.Millisecond)
 			note(-1, "set_inv", nil)
 			if _, err := e.Set(); err != nil {
@@ -247,6 +380,21 @@ func runClientLib(w *World) {
 		var setAt uint64
 		waiting := map[int]libEvent{} // goroutines whose acquire was called and has not returned
 		var lastRel libEvent
+		// an acquire that ends in failure was not necessarily queued on the server all the time (a
+		// timeout of 0 never queues, a lost connection loses the request): only acquires that are
+		// eventually granted count as waiters, and only in runs without planned connection cuts
+		granted := map[uint64]bool{}
+		{
+			lastInv := map[int]uint64{}
+			for _, e := range evs {
+				switch e.kind {
+				case "inv":
+					lastInv[e.g] = e.ev
+				case "acq":
+					granted[lastInv[e.g]] = true
+				}
+			}
+		}
 		for _, e := range evs {
 			switch e.kind {
 			case "set_inv":
@@ -257,7 +405,9 @@ func runClientLib(w *World) {
 					w.violate("C19", "event_wait_returned_before_set", "Event.Wait of goroutine %d returned successfully before Event.Set was called (default-set mode %v)", e.g, body.DefaultSet)
 				}
 			case "inv":
-				waiting[e.g] = e
+				if granted[e.ev] && len(body.CutBytes) == 0 {
+					waiting[e.g] = e
+				}
 			case "fail":
 				delete(waiting, e.g)
 				w.probe("acquire_failures")
